@@ -3113,7 +3113,7 @@ class Builder(object):
 
         if actorName not in poking.Poke.Registry:
             msg = "ParseError: Can't find actor named '%s'" % (actorName)
-            raise excepting.ParseError(msg, tokens, index)
+            raise excepting.ParseError(msg)
 
         parms = {}
 
@@ -3144,7 +3144,7 @@ class Builder(object):
 
         if actorName not in poking.Poke.Registry:
             msg = "ParseError: Goal can't find actor named '%s'" % (actorName)
-            raise excepting.ParseError(msg, tokens, index)
+            raise excepting.ParseError(msg)
 
         #actor = poking.Poke.Names[actorName]
 
@@ -3223,7 +3223,7 @@ class Builder(object):
 
         if actorName not in goaling.Goal.Registry:
             msg = "ParseError: Goal can't find actor named '%s'" % (actorName)
-            raise excepting.ParseError(msg, tokens, index)
+            raise excepting.ParseError(msg)
 
         parms = {}
         parms['destination'] = dstPath #this is string
@@ -3252,7 +3252,7 @@ class Builder(object):
 
         if actorName not in goaling.Goal.Registry:
             msg = "ParseError: Goal can't find actor named '%s'" % (actorName)
-            raise excepting.ParseError(msg, tokens, index)
+            raise excepting.ParseError(msg)
 
         parms = {}
         parms['destination'] = dstPath #this is string
@@ -3838,7 +3838,7 @@ class Builder(object):
 
         if actorName not in needing.Need.Registry:
             msg = "ParseError: Need can't find actor named '%s'" % (actorName)
-            raise excepting.ParseError(msg, tokens, index)
+            raise excepting.ParseError(msg)
 
         parms = {}
         parms['state'] = statePath #this is a string
@@ -3865,7 +3865,7 @@ class Builder(object):
 
         if actorName not in needing.Need.Registry:
             msg = "ParseError: Need can't find actor named '%s'" % (actorName)
-            raise excepting.ParseError(msg, tokens, index)
+            raise excepting.ParseError(msg)
 
         parms = {}
         parms['state'] = statePath #this is a string
@@ -3900,7 +3900,7 @@ class Builder(object):
 
         if actorName not in needing.Need.Registry:
             msg = "ParseError: Need can't find actor named '%s'" % (actorName)
-            raise excepting.ParseError(msg, tokens, index)
+            raise excepting.ParseError(msg)
 
         parms = {}
         parms['state'] = statePath #this is string
